@@ -24,6 +24,7 @@ type Term struct {
 	Lit  bool       // untyped integer literal (may be coerced to a bit-vector)
 	Room string     // element pointers: number of elements from the pointer to the end of the slice it came from
 	Word bool       // *uint64 obtained by converting a pointer into a byte slice (unsafe word access)
+	Shared bool     // a by-reference struct value that another variable or field also holds (assignment copies it)
 }
 
 func (t Term) String() string { return t.S }
